@@ -586,8 +586,18 @@ def justified_edges(f):
                     err_true = cn.endswith("is_err") != c.neg
                     for tb in (true_targets if err_true else false_targets):
                         res.add((b, tb))
-        elif c.kind == "unknown" or c.kind == "cmp":
-            pass
+        elif c.kind == "discr" and c.place is not None:
+            # `match result { Ok(..) => .., Err(..) => .. }` on a result that originates in the reader: the Err arm observed the end
+            lty = f.local_ty(c.place["l"])
+            if lty.startswith("core::result::Result<"):
+                w = g.walk(places=[c.place], at=c.node) if hasattr(g, "walk") else set()
+                names = g.callee_names_in(w)
+                if any(n.endswith(("non_empty_reader_buffer_mut", "non_empty_reader_buffer", "BufRead::fill_buf")) for n in names):
+                    err_t = [tb for v, tb in t["targets"] if v == "1"]
+                    if not err_t and "1" not in listed and f.term(t["otherwise"])["k"] != "unreachable":
+                        err_t = [t["otherwise"]]
+                    for tb in err_t:
+                        res.add((b, tb))
         # test of the guaranteed_eof flag itself
         dl = op_local(t["d"], pure=True)
         if dl is not None:
